@@ -50,6 +50,8 @@
 #include <sys/ioctl.h>
 #include "convert.h"
 #include "connection.h"
+/* mptio/output_remote.c is part of this translation unit: its object type (struct out_data) is private to the file */
+#include "output_remote.c"
 #include "notify.h"
 #include "stream.h"
 
@@ -272,13 +274,48 @@ static int sin_act_ok(const char *acts, int fresh)
 	return ok && n <= 16;
 }
 /* ---------------------------------------------------------------- stream-backed connection */
-static MPT_STRUCT(connection) ccon = MPT_CONNECTION_INIT;
+/* the connection in use: the driver's own object or the one inside an mpt_output_remote() object (`remote`) */
+static MPT_STRUCT(connection) ccon_store = MPT_CONNECTION_INIT;
+static MPT_STRUCT(connection) *pcon = &ccon_store;
+#define ccon (*pcon)
+static MPT_INTERFACE(input) *cremote;    /* mpt_output_remote(): input interface first in the object (struct out_data) */
+#define CREMOTE_OUT (&((MPT_STRUCT(out_data) *) cremote)->_out)
 static int ccon_open;
 static int ccon_fresh;      /* opened, nothing sent or handled yet */
 
 static void ccon_close(void)
 {
-	if (ccon_open) { mpt_connection_fini(&ccon); ccon_open = 0; }
+	if (!ccon_open) return;
+	ccon_open = 0;
+	/* the last reference of the output object closes its connection */
+	if (cremote) { cremote->_vptr->meta.unref((void *) cremote); cremote = 0; pcon = &ccon_store; }
+	else mpt_connection_fini(&ccon);
+}
+static int con_dispatch(MPT_TYPE(event_handler) h)
+{
+	return cremote ? cremote->_vptr->dispatch(cremote, h, 0) : mpt_connection_dispatch(&ccon, h, 0);
+}
+static int con_await(int (*ctl)(void *, const MPT_STRUCT(message) *), void *arg)
+{
+	return cremote ? CREMOTE_OUT->_vptr->await(CREMOTE_OUT, ctl, arg) : mpt_connection_await(&ccon, ctl, arg);
+}
+static ssize_t con_push(size_t len, const void *src)
+{
+	return cremote ? CREMOTE_OUT->_vptr->push(CREMOTE_OUT, len, src) : mpt_connection_push(&ccon, len, src);
+}
+/* take replies for the waiting commands (mpt_stream_sync / the output's sync) */
+static int con_sync(void)
+{
+	if (cremote) return CREMOTE_OUT->_vptr->sync(CREMOTE_OUT, 0);
+	if (MPT_socket_active(&ccon.out.sock)) return -99;
+	return mpt_stream_sync((void *) ccon.out.buf._buf, ccon.out._idlen, &ccon._wait, 0);
+}
+/* new connection object for `c open`: plain or inside a fresh output object */
+static void con_new(int remote)
+{
+	MPT_STRUCT(connection) init = MPT_CONNECTION_INIT;
+	if (remote && (cremote = mpt_output_remote())) pcon = &((MPT_STRUCT(out_data) *) cremote)->con;
+	else { pcon = &ccon_store; ccon = init; }
 }
 static void ccon_release(void)
 {
@@ -300,7 +337,7 @@ static int creply_handler(void *arg, const MPT_STRUCT(message) *msg)
 	crep[creplen++] = ')'; crep[creplen] = 0;
 	/* tags 800000..899999: the command registers a follow-up request (tag + 1) while it handles its reply */
 	if (msg && (intptr_t) arg >= 800000 && (intptr_t) arg < 900000) {
-		int r = mpt_connection_await(&ccon, creply_handler, (void *) ((intptr_t) arg + 1));
+		int r = con_await(creply_handler, (void *) ((intptr_t) arg + 1));
 		creplen += snprintf(crep + creplen, sizeof(crep) - creplen, r < 0 ? "+refused" : "+id=%u", (unsigned) ccon.cid);
 	}
 	/* tags from 900000 on: a command that reports failure */
@@ -322,15 +359,14 @@ static void con_op(void)
 {
 	const char *op = drv_w[1];
 	size_t a;
-	if (!strcmp(op, "open") && drv_nw == 4 && !strcmp(drv_w[3], "dgram")) {
+	if (!strcmp(op, "open") && drv_nw == 4 && (!strcmp(drv_w[3], "dgram") || !strcmp(drv_w[3], "rdgram"))) {
 		if (drv_parse_nat(drv_w[2], &a) || a > 255) { puts("bad-op"); return; }
 		sin_close(); ccon_release(); ccon_close(); sin_drop_peer();
 		creplen = 0;
 		int sv[2];
 		if (socketpair(AF_UNIX, SOCK_DGRAM, 0, sv) < 0) { puts("R nosocket | C - | I ret=0"); return; }
 		MPT_STRUCT(socket) sock; sock._id = sv[0];
-		MPT_STRUCT(connection) init = MPT_CONNECTION_INIT;
-		ccon = init;
+		con_new(drv_w[3][0] == 'r');
 		int r = mpt_connection_assign(&ccon, &sock);      /* keeps a duplicate of the descriptor */
 		close(sv[0]);
 		if (r < 0) { close(sv[1]); puts("R refused | C - | I ret=0"); return; }
@@ -348,17 +384,20 @@ static void con_op(void)
 		sin_called = sin_ctx = 0; sin_id = 0; sin_res[0] = 0;
 		sin_acts = drv_w[3];
 		sin_defer_keep = 1;
-		int rv = mpt_outdata_recv(&ccon.out);
-		int dr = mpt_connection_dispatch(&ccon, discard ? 0 : sin_handler, 0);
+		/* the output object receives in next(); it reports input by POLLIN */
+		int nxd = 1, rv;
+		if (cremote) { nxd = cremote->_vptr->next(cremote, POLLIN) == POLLIN; rv = (ccon.out.state & MPT_OUTFLAG(Received)) ? 0 : -1; }
+		else rv = mpt_outdata_recv(&ccon.out);
+		if (rv < 0) nxd = 1;
+		int dr = con_dispatch(discard ? 0 : sin_handler);
 		sin_defer_keep = 0;
 		printf("R called=%d ctx=%d id=%llu acts=%s | C ", sin_called, sin_ctx, sin_id, sin_called ? sin_res : "-");
 		if (creplen) { fputs(crep, stdout); creplen = 0; }
 		else con_frames();
 		/* same scale as the stream variant: 131072 = failed, else the event flags */
-		printf(" | I next=1 disp=%d\n", (rv < 0 || dr < 0) ? 131072 : (dr & 0xffff));
+		printf(" | I next=%d disp=%d\n", nxd, (rv < 0 || dr < 0) ? 131072 : (dr & 0xffff));
 	}
-	else if (ccon_dgram && ccon_open && (!strcmp(op, "await") || !strcmp(op, "send"))) puts("bad-op");
-	else if (!strcmp(op, "open") && drv_nw == 3) {
+	else if (!strcmp(op, "open") && (drv_nw == 3 || (drv_nw == 4 && !strcmp(drv_w[3], "remote")))) {
 		if (drv_parse_nat(drv_w[2], &a) || a > 255) { puts("bad-op"); return; }
 		sin_close(); ccon_release(); ccon_close(); sin_drop_peer();
 		creplen = 0; ccon_dgram = 0;
@@ -366,13 +405,12 @@ static void con_op(void)
 		if (socketpair(AF_UNIX, SOCK_STREAM, 0, sv) < 0) { puts("R nosocket | C - | I ret=0"); return; }
 		MPT_STRUCT(socket) sock; sock._id = sv[0];
 		MPT_STRUCT(stream) st = MPT_STREAM_INIT, *srm;
-		MPT_STRUCT(connection) init = MPT_CONNECTION_INIT;
 		if (mpt_stream_dopen(&st, &sock, MPT_STREAMFLAG(RdWr) | MPT_STREAMFLAG(Buffer)) < 0) { close(sv[0]); close(sv[1]); puts("R refused | C - | I ret=0"); return; }
 		st._wd._enc = mpt_message_encoder(MPT_ENUM(EncodingCobs));
 		st._rd._dec = mpt_message_decoder(MPT_ENUM(EncodingCobs));
 		srm = malloc(sizeof(*srm));
 		*srm = st;
-		ccon = init;
+		con_new(drv_nw == 4);
 		ccon.out.buf._buf = (void *) srm;
 		ccon.out._idlen = a;
 		ccon_open = 1; ccon_fresh = 1;
@@ -391,11 +429,12 @@ static void con_op(void)
 		sin_called = sin_ctx = 0; sin_id = 0; sin_res[0] = 0;
 		sin_acts = drv_w[3];
 		sin_defer_keep = 1;
-		int nx = mpt_stream_poll(srm, POLLIN, -1);
-		int dr = mpt_connection_dispatch(&ccon, discard ? 0 : sin_handler, 0);
+		/* the output object polls without waiting: the frame is in the socket already */
+		int nx = cremote ? (cremote->_vptr->next(cremote, POLLIN) >= 0 ? 1 : -1) : mpt_stream_poll(srm, POLLIN, -1);
+		int dr = con_dispatch(discard ? 0 : sin_handler);
 		for (int round = 0, left = 0; !sin_called && !dr && round < 64 && !ioctl(sin_fd0, FIONREAD, &left) && left > 0; round++) {
-			nx = mpt_stream_poll(srm, POLLIN, -1);
-			dr = mpt_connection_dispatch(&ccon, discard ? 0 : sin_handler, 0);
+			nx = cremote ? (cremote->_vptr->next(cremote, POLLIN) >= 0 ? 1 : -1) : mpt_stream_poll(srm, POLLIN, -1);
+			dr = con_dispatch(discard ? 0 : sin_handler);
 		}
 		sin_defer_keep = 0;
 		mpt_stream_flush(srm);
@@ -419,7 +458,7 @@ static void con_op(void)
 	}
 	else if (!strcmp(op, "await") && drv_nw == 3) {
 		if (!ccon_open || drv_parse_nat(drv_w[2], &a) || a > 1000000) { puts("bad-op"); return; }
-		int r = mpt_connection_await(&ccon, creply_handler, (void *) (intptr_t) a);
+		int r = con_await(creply_handler, (void *) (intptr_t) a);
 		if (r < 0) printf("R refused | C - | I ret=%s\n", drv_errname(r));
 		else printf("R ok id=%u | C - | I ret=%d\n", (unsigned) ccon.cid, r);
 	}
@@ -427,12 +466,107 @@ static void con_op(void)
 		uint8_t *dat = 0; size_t dlen = 0; int isnull = 0;
 		if (!ccon_open || drv_parse_data(drv_w[2], &dat, &dlen, &isnull) || isnull || dlen > 1000) { puts("bad-op"); free(dat); return; }
 		ccon_fresh = 0;
-		ssize_t r1 = dlen ? mpt_connection_push(&ccon, dlen, dat) : 0;
-		ssize_t r2 = r1 < 0 ? r1 : mpt_connection_push(&ccon, 0, 0);
+		ssize_t r1 = dlen ? con_push(dlen, dat) : 0;
+		ssize_t r2 = r1 < 0 ? r1 : con_push(0, 0);
 		free(dat);
 		printf("R %s | C ", (r1 < 0 || r2 < 0) ? "refused" : "ok");
-		sin_frames();
+		con_frames();
 		printf(" | I ret=%zd,%zd\n", r1, r2);
+	}
+	else if (!strcmp(op, "probe") && drv_nw == 2) {
+		/* the other interfaces of the output object: conversions, reference count, clone, object property */
+		if (!ccon_open || !cremote) { puts("bad-op"); return; }
+		const MPT_STRUCT(named_traits) *tr = mpt_input_type_traits();
+		MPT_INTERFACE(convertable) *cv = (void *) cremote;
+		MPT_STRUCT(out_data) *od = (void *) cremote;
+		const uint8_t *fmt = 0; void *p1 = 0, *p2 = 0, *po = 0, *pu = 0, *pl = 0; int fd = -2;
+		int me = tr ? (int) tr->type : (int) MPT_ENUM(TypeMetaPtr);
+		int r0 = cv->_vptr->convert(cv, 0, &fmt);
+		int r1 = cv->_vptr->convert(cv, MPT_ENUM(TypeMetaPtr), &p1);
+		int r2 = cv->_vptr->convert(cv, MPT_ENUM(TypeUnixSocket), &fd);
+		int r3 = cv->_vptr->convert(cv, me, &p2);
+		int r4 = cv->_vptr->convert(cv, 'x', 0);
+		int r5 = cv->_vptr->convert(cv, MPT_ENUM(TypeObjectPtr), &po);
+		int r6 = cv->_vptr->convert(cv, MPT_ENUM(TypeOutputPtr), &pu);
+		int r7 = cv->_vptr->convert(cv, MPT_ENUM(TypeLoggerPtr), &pl);
+		int r8 = cv->_vptr->convert(cv, 0, 0) == me && cv->_vptr->convert(cv, MPT_ENUM(TypeUnixSocket), 0) == me && cv->_vptr->convert(cv, me, 0) == MPT_ENUM(TypeUnixSocket);
+		int wantfd = ccon_dgram ? (int) ccon.out.sock._id : sin_fd0;
+		uintptr_t rf = cremote->_vptr->meta.addref((void *) cremote);
+		cremote->_vptr->meta.unref((void *) cremote);
+		MPT_INTERFACE(metatype) *cl = cremote->_vptr->meta.clone((void *) cremote);
+		int pt = od->_obj._vptr->property(&od->_obj, 0);
+		printf("R ok fmt=%s,%s meta=%s,%d sock=%s,%s input=%s,%d unknown=%s obj=%s,%s out=%s,%s log=%s,%s noptr=%s clone=%s ref=%d prop=%s | C - | I ret=0\n",
+		       (fmt && fmt[0] == MPT_ENUM(TypeObjectPtr) && fmt[1] == MPT_ENUM(TypeOutputPtr) && fmt[2] == MPT_ENUM(TypeLoggerPtr) && !fmt[3]) ? "oul" : "?", r0 == me ? "me" : "?",
+		       p1 == (void *) cremote ? "same" : "?", r1, fd == wantfd ? "same" : "?", r2 == me ? "me" : "?",
+		       p2 == (void *) cremote ? "same" : "?", r3, r4 < 0 ? drv_errname(r4) : "ok",
+		       po == (void *) &od->_obj ? "same" : "?", r5 == me ? "me" : "?", pu == (void *) &od->_out ? "same" : "?", r6 == me ? "me" : "?",
+		       pl == (void *) &od->_log ? "same" : "?", r7 == me ? "me" : "?", r8 ? "ok" : "?", cl ? "yes" : "no", (int) rf,
+		       pt == MPT_ENUM(TypeOutputPtr) ? "output" : "?");
+	}
+	else if (!strcmp(op, "sync") && drv_nw == 3) {
+		/* the peer sends replies (frames whose id carries the reply mark), then the waiting commands are synced
+		 * (mpt_stream_sync / the output object's sync) until nothing moves; what sync left is dispatched without handler */
+		size_t il = ccon_open ? ccon.out._idlen : 0;
+		if (!ccon_open || !il || (ccon_dgram && !cremote)) { puts("bad-op"); return; }
+		char *copy = strdup(drv_w[2]), *save = 0, *p; int bad = 0, n = 0;
+		if (drv_w[2][0] == ',' || drv_w[2][strlen(drv_w[2]) - 1] == ',' || strstr(drv_w[2], ",,")) bad = 1;
+		for (p = strtok_r(copy, ",", &save); p && !bad; p = strtok_r(0, ",", &save), ++n) {
+			uint8_t *d = 0; size_t l; int isn;
+			if (n >= 16 || drv_parse_data(p, &d, &l, &isn) || isn || l > 1000 || l < il || (!ccon_dgram && !(d[0] & 0x80))) bad = 1;
+			free(d);
+		}
+		free(copy);
+		if (bad || !n) { puts("bad-op"); return; }
+		ccon_fresh = 0;
+		save = 0;
+		for (p = strtok_r(drv_w[2], ",", &save); p; p = strtok_r(0, ",", &save)) {
+			uint8_t *d = 0; size_t l; int isn; uint8_t wire[2100];
+			drv_parse_data(p, &d, &l, &isn);
+			if (ccon_dgram) { if (send(sin_peer, d, l, 0) < 0) bad = 1; }
+			else { size_t wl = cobs_encode(d, l, wire); if (write(sin_peer, wire, wl) != (ssize_t) wl) bad = 1; }
+			free(d);
+		}
+		if (bad) { puts("R nowrite | C - | I ret=0"); return; }
+		int fd = ccon_dgram ? (int) ccon.out.sock._id : sin_fd0, last = 0, left = 0, rounds, waiting = 0;
+		for (rounds = 0; rounds < 200; rounds++) {
+			left = 0; ioctl(fd, FIONREAD, &left);
+			last = con_sync();
+			/* the output's datagram sync answers with the number of waiting commands when a datagram is no reply */
+			if (ccon_dgram && last > 0) waiting = last;
+			int now = 0; ioctl(fd, FIONREAD, &now);
+			if (left <= 0 && now <= 0 && last <= 0) break;
+			if (left <= 0 && rounds > 40) break;
+		}
+		/* leftovers */
+		for (rounds = 0; rounds < 64; rounds++) {
+			int dr;
+			if (ccon_dgram) {
+				left = 0; ioctl(fd, FIONREAD, &left);
+				if (!(ccon.out.state & MPT_OUTFLAG(Received)) && left <= 0) break;
+				if (!(ccon.out.state & MPT_OUTFLAG(Received))) cremote->_vptr->next(cremote, POLLIN);
+				con_dispatch(0);
+				continue;
+			}
+			left = 0; ioctl(fd, FIONREAD, &left);
+			if (left > 0) { if (cremote) cremote->_vptr->next(cremote, POLLIN); else mpt_stream_poll((void *) ccon.out.buf._buf, POLLIN, 0); }
+			dr = con_dispatch(0);
+			if (left <= 0 && !(dr > 0 && (dr & MPT_EVENTFLAG(Retry)))) break;
+		}
+		/* calls of the reply commands, then what the peer got (default replies to discarded requests) */
+		if (waiting) printf("R ok waiting=%d | C ", waiting); else printf("R ok | C ");
+		if (creplen) fputs(crep, stdout);
+		if (ccon_dgram) {
+			uint8_t b[1 << 12]; ssize_t k; int any = creplen ? 1 : 0;
+			while ((k = recv(sin_peer, b, sizeof(b), MSG_DONTWAIT)) >= 0) {
+				if (any++) fputc(',', stdout);
+				printf("frame["); drv_puthex(stdout, b, k); printf("]");
+			}
+			if (!any) fputc('-', stdout);
+		}
+		else if (!creplen) fputc('-', stdout);
+		printf(" | I ret=0\n");
+		creplen = 0;
+		(void) last;
 	}
 	else if (!strcmp(op, "close") && drv_nw == 2) {
 		if (!ccon_open) { puts("bad-op"); return; }
